@@ -88,14 +88,20 @@ Nth(ty, i) ==
 
 ---------------------------------------------------------------------------
 (* classification of types: which operators the property speaks about *)
+\* leaf decorations: noarith - extreme numbers, only compared (their spec values are ALIASES, see BigI); noord - strings whose
+\* order the model does not define (CharCode knows a few letters only), only == != and +
+NoArith(ty) == "noarith" \in DOMAIN ty
+NoOrd(ty) == "noord" \in DOMAIN ty
 RECURSIVE Ordered(_), Numeric(_), Addable(_), HasBlob(_)
-Ordered(ty) == CASE ty.k \in {"tint", "tfloat", "tstr"} -> TRUE
+Ordered(ty) == CASE ty.k \in {"tint", "tfloat"} -> TRUE
+                 [] ty.k = "tstr" -> ~NoOrd(ty)
                  [] ty.k = "ttuple" -> \A i \in 1..Len(ty.es) : Ordered(ty.es[i])
                  [] OTHER -> FALSE
-Numeric(ty) == CASE ty.k \in {"tint", "tfloat"} -> TRUE
+Numeric(ty) == CASE ty.k \in {"tint", "tfloat"} -> ~NoArith(ty)
                  [] ty.k = "ttuple" -> \A i \in 1..Len(ty.es) : Numeric(ty.es[i])
                  [] OTHER -> FALSE
-Addable(ty) == CASE ty.k \in {"tint", "tfloat", "tstr"} -> TRUE
+Addable(ty) == CASE ty.k \in {"tint", "tfloat"} -> ~NoArith(ty)
+                 [] ty.k = "tstr" -> TRUE
                  [] ty.k = "ttuple" -> \A i \in 1..Len(ty.es) : Addable(ty.es[i])
                  [] OTHER -> FALSE
 HasBlob(ty) == CASE ty.k = "ttuple" -> \E i \in 1..Len(ty.es) : HasBlob(ty.es[i])
@@ -113,7 +119,9 @@ OpsFor(ty) == EqOps \o (IF Ordered(ty) THEN OrdOps ELSE <<>>)
 RECURSIVE Shape(_), JoinShapes(_, _)
 JoinShapes(tys, i) == IF i > Len(tys) THEN ""
                       ELSE Shape(tys[i]) \o (IF i < Len(tys) THEN "," ELSE "") \o JoinShapes(tys, i + 1)
-Shape(ty) == CASE ty.k = "tint" -> "int" [] ty.k = "tfloat" -> "float" [] ty.k = "tstr" -> "str"
+Shape(ty) == CASE ty.k = "tint" -> (IF NoArith(ty) THEN "bigint" ELSE "int")
+               [] ty.k = "tfloat" -> (IF NoArith(ty) THEN "bigfloat" ELSE "float")
+               [] ty.k = "tstr" -> (IF NoOrd(ty) THEN "numstr" ELSE "str")
                [] ty.k = "tbool" -> "bool"
                [] ty.k = "ttuple" -> "tuple(" \o JoinShapes(ty.es, 1) \o ")"
                [] ty.k = "tlist" -> "list(" \o Shape(ty.e) \o ")"
@@ -311,6 +319,23 @@ EnumS == EnumT("E", <<UV0("N"), UV1("I", Int2), UV1("T", TupT(<<Int2, StrT(<<"a"
 BlobC == BlobT("C", <<[f |-> "a", ty |-> BlobA(Int2)], [f |-> "e", ty |-> EnumS]>>)
 TE(ty, qs) == [ty |-> ty, qs |-> qs]
 
+(* Extreme numbers.  TLC has 32-bit integers and the order laws need no arithmetic, so the extremes are ALIASES: a spec  *)
+(* number stands for a real literal, the replayer writes the real literal into the program (c19.rs, from the ALIAS      *)
+(* record); the map is strictly increasing, so every comparison has the same answer on both sides.  Float leaves use     *)
+(* only aliases whose real value is a float exactly.  No arithmetic is applied to these types (noarith).                 *)
+Alias == << [spec |-> 0 - 950000, real |-> "-9223372036854775808"],     \* -2^63 (as a float only)
+            [spec |-> 0 - 900000, real |-> "-9223372036854775807"],     \* min i64 + 1
+            [spec |-> 800000, real |-> "9007199254740992"],             \* 2^53
+            [spec |-> 800001, real |-> "9007199254740993"],             \* 2^53 + 1 (not a float)
+            [spec |-> 800002, real |-> "9007199254740994"],             \* 2^53 + 2
+            [spec |-> 900000, real |-> "9223372036854775807"],          \* max i64
+            [spec |-> 950000, real |-> "9223372036854775808"] >>        \* 2^63 (as a float only)
+BigI == [k |-> "tint", vs |-> <<0 - 900000, 0 - 1, 0, 1, 800000, 800001, 900000>>, noarith |-> TRUE]
+BigF == [k |-> "tfloat", vs |-> << <<0 - 950000, 0>>, <<0 - 1, 0>>, <<1, 1>>, <<800000, 0>>, <<800002, 0>>, <<950000, 0>> >>, noarith |-> TRUE]
+(* strings that LOOK LIKE NUMBERS to Lua's tonumber (and some that almost do): `+` must still concatenate *)
+NumStr  == [k |-> "tstr", vs |-> <<"1", "0x10", "1e2", " 7 ", "-3", ".5", "inf", "nan", "", "a">>, noord |-> TRUE]
+NumStr5 == [k |-> "tstr", vs |-> <<"1", "0x10", " 7 ", ".5", "a">>, noord |-> TRUE]
+
 TypeTable == <<
   TE(Int4, 1), TE(Fl3, 1), TE(Str4, 1), TE(BoolT, 1),
   TE(TupT(<<Int4>>), 1), TE(TupT(<<Int4, Int4>>), 1), TE(TupT(<<Int4, Int4, Int4>>), 5),
@@ -325,7 +350,14 @@ TypeTable == <<
   TE(TupT(<<TupT(<<Str2, Int3>>), Int3>>), 1),
   TE(TupT(<<TupT(<<Fl2, Fl2>>), Fl2>>), 1), TE(TupT(<<TupT(<<Str2, Str2>>), Str2>>), 1),
   TE(TupT(<<ListT(Int2, 2), Int3>>), 2), TE(TupT(<<EnumS, Int2>>), 1),
-  TE(ListT(BlobA(Int2), 2), 1), TE(ListT(EnumS, 2), 2), TE(BlobC, 1) >>
+  TE(ListT(BlobA(Int2), 2), 1), TE(ListT(EnumS, 2), 2), TE(BlobC, 1),
+  TE(BigI, 1), TE(BigF, 1), TE(TupT(<<BigI>>), 1), TE(TupT(<<BigI, Int2>>), 1), TE(TupT(<<Int2, BigI>>), 1), TE(TupT(<<BigF, Int2>>), 1),
+  TE(TupT(<<TupT(<<BigI, Int2>>), Int2>>), 3), TE(ListT(BigI, 2), 7), TE(BlobA(BigI), 1),
+  TE(NumStr, 1), TE(TupT(<<NumStr5, Int2>>), 1), TE(TupT(<<TupT(<<NumStr5>>), NumStr5>>), 3) >>
+
+(* numbers of different type (int against float) are still ONE order: ordering operators only, both ways round *)
+MixTable == << [l |-> Int4, r |-> Fl3], [l |-> BigI, r |-> BigF],
+               [l |-> TupT(<<BigI, Int2>>), r |-> TupT(<<BigF, Int2>>)], [l |-> TupT(<<Int2, BigI>>), r |-> TupT(<<Int2, BigF>>)] >>
 
 (* depth-3 types, sampled by simulation in the thorough tier *)
 DeepTable == <<
@@ -431,6 +463,47 @@ AliasApps(ty) ==
   [i \in 1..Len(ops) |-> mk(ops[i])]
 
 ---------------------------------------------------------------------------
+SameResult(a, b) == a.sig = b.sig /\ (a.sig = "ok" => Snap(a) = Snap(b))
+
+(* mixed int / float ordering: pair (i, j) of MixTable[m] *)
+MixApp(m, i, j) ==
+  LET tl == MixTable[m].l  tr == MixTable[m].r
+      ea == Nth(tl, i)  eb == Nth(tr, j)
+      r == EvalAll(<<ea, eb>>)
+      a == r.v.es[1]  b == r.v.es[2]  S == r.s
+      sh == Shape(tl) \o "~" \o Shape(tr)
+      lt == BoolOf("<", a, b, S)  le == BoolOf("<=", a, b, S)  gt == BoolOf(">", a, b, S)  ge == BoolOf(">=", a, b, S)
+      one(op, x, y, ex, ey, form) == Apply1(op, sh, "mixed", form, Bin(op, ex, ey), x, y, S) IN
+  [apps |-> [n \in 1..4 |-> one(OrdOps[n], a, b, ea, eb, "lit")] \o [n \in 1..4 |-> one(OrdOps[n], b, a, eb, ea, "lit-flipped")],
+   laws |-> Law(\A op \in {"<", "<=", ">", ">="} : OkBool(op, a, b, S) /\ OkBool(op, b, a, S), "mixed-order-total")
+            \cup Law((lt = ~ge) /\ (gt = ~le) /\ (lt => le) /\ ~(lt /\ gt), "mixed-order-consistent")
+            \cup Law(gt = BoolOf("<", b, a, S) /\ ge = BoolOf("<=", b, a, S), "mixed-order-flips")]
+
+(* compound assignment is the operator: `v op= e` on a variable, on a tuple variable, on a blob field *)
+CaTIS == TTuple(<<TInt, TStr>>)
+CaStrForms(s, t) == <<
+  [form |-> "plus-assign-var", shape |-> "numstr", op |-> "+", l |-> St(s), r |-> St(t),
+   e |-> IIFE(TStr, <<DefM(1, TStr, St(s)), Asg("+=", V(1), St(t)), Ex(V(1))>>)],
+  [form |-> "plus-assign-tuple-var", shape |-> "tuple(int,numstr)", op |-> "+", l |-> Tup(<<I(1), St(s)>>), r |-> Tup(<<I(2), St(t)>>),
+   e |-> IIFE(CaTIS, <<DefM(1, CaTIS, Tup(<<I(1), St(s)>>)), Asg("+=", V(1), Tup(<<I(2), St(t)>>)), Ex(V(1))>>)],
+  [form |-> "plus-assign-field", shape |-> "tuple(int,numstr)", op |-> "+", l |-> Tup(<<I(1), St(s)>>), r |-> Tup(<<I(2), St(t)>>),
+   e |-> IIFE(CaTIS, <<DefC(1, TName("B"), BLit(Tup(<<I(1), St(s)>>), Lst(<<>>))), Asg("+=", Fld(V(1), "p"), Tup(<<I(2), St(t)>>)),
+                      Ex(Fld(V(1), "p"))>>)] >>
+CaNumTy == TupT(<<Int3, Int3>>)
+CaTII == TTuple(<<TInt, TInt>>)
+CaNumForms(ea, eb) == [n \in 1..3 |->
+  LET op == <<"+", "-", "*">>[n] IN
+  [form |-> "op-assign-tuple-var", shape |-> "tuple(int,int)", op |-> op, l |-> ea, r |-> eb,
+   e |-> IIFE(CaTII, <<DefM(1, CaTII, ea), Asg(op \o "=", V(1), eb), Ex(V(1))>>)]]
+CaApp(f) ==
+  LET x == EvalE(f.e, 0, S0)
+      y == EvalE(Bin(f.op, f.l, f.r), 0, S0) IN
+  [ok |-> x.sig = "ok", stuck |-> x.sig # "ok" /\ IsStuck(x.s.status),
+   item |-> [op |-> f.op \o "=", shape |-> f.shape, rel |-> Rel(f.l, f.r), form |-> f.form, e |-> f.e,
+             want |-> IF x.sig = "ok" THEN Snap(x) ELSE NilV],
+   laws |-> Law(SameResult(x, y), "compound-assignment-is-the-operator")]
+
+---------------------------------------------------------------------------
 (* HISTORIES: operators are functions of their operands.                   *)
 (* Three values of one type are bound to variables (so lists, blobs,       *)
 (* tuples and variants are three OBJECTS), then 2-3 applications over the  *)
@@ -504,7 +577,6 @@ HistRun(exprs, k, fr, S, acc) ==
   ELSE LET r == EvalE(exprs[k], fr, S) IN HistRun(exprs, k + 1, fr, IF r.sig = "ok" THEN r.s ELSE S, Append(acc, r))
 
 StepExpr(s, x) == IF s.op = "neg" THEN Un("-", x[s.l]) ELSE Bin(s.op, WrapE(s.w, x[s.l]), WrapE(s.w, x[s.r]))
-SameResult(a, b) == a.sig = b.sig /\ (a.sig = "ok" => Snap(a) = Snap(b))
 
 \* history number h (within its batch) of type ty: values idx = <<i, j, k>>, template tpl
 History(ty, idx, tpl, h) ==
